@@ -306,7 +306,10 @@ func genC10(c *runCfg) error {
 			}
 			g.w("\tmsg.%s.%s.SetMessageType(%d)\n", fam, hdr, *m.MsgType)
 			g.w("\tsnap := vrt.Snapshot(msg)\n\tvar out []byte\n\tvar err error\n")
-			g.w("\tif vrt.Bool(\"viaPlain\") {\n\t\tout, err = msg.PlainNasEncode()\n\t} else {\n\t\tb := new(bytes.Buffer)\n\t\terr = msg.%s(b)\n\t\tout = b.Bytes()\n\t}\n", enc)
+			g.w("\tif vrt.Bool(\"viaPlain\") {\n\t\tout, err = msg.PlainNasEncode()\n\t} else {\n")
+			g.w("\t\t// the family encoder appends to a caller-supplied buffer that may already hold octets (an envelope, another message)\n")
+			g.w("\t\tpl := vrt.Choose(\"prefixLen\", 0, 4)\n\t\tprefix := vrt.Bytes(\"prefix\", pl)\n\t\tpre := append([]byte{}, prefix...)\n\t\tb := bytes.NewBuffer(prefix)\n\t\terr = msg.%s(b)\n", enc)
+			g.w("\t\tif err == nil {\n\t\t\tvrt.Assert(b.Len() >= pl, \"%s: the family encoder only appends\")\n\t\t\tvrt.Equal(b.Bytes()[:pl], pre, \"%s: octets already in the buffer are kept\")\n\t\t\tout = append([]byte{}, b.Bytes()[pl:]...)\n\t\t}\n\t}\n", m.Message, m.Message)
 			g.w("\tvrt.Assert(err == nil, \"%s: encoding through the generic entry point succeeds\")\n", m.Message)
 			g.w("\tvrt.Assert(vrt.Unchanged(snap), \"%s: PlainNasEncode / family encoder do not modify the message (header view included)\")\n", m.Message)
 			g.w("\tout2, err2 := msg.PlainNasEncode()\n\tvrt.Assert(err2 == nil, \"%s: encoding again succeeds\")\n\tvrt.Equal(out2, out, \"%s: encoding again yields the same bytes\")\n}\n\n", m.Message, m.Message)
